@@ -295,6 +295,10 @@ type world struct {
 	log     []string
 	home    string
 	deep    int
+	compr   bool // UnspentDB keeps compressed records (chain.NewChanOpts.CompressUTXO)
+
+	pendingResidue   string
+	pendingResDetail interface{}
 }
 
 func (w *world) logf(f string, a ...interface{}) {
@@ -309,26 +313,37 @@ func (w *world) replayDoc(detail interface{}) interface{} {
 	if len(tail) > 60 {
 		tail = tail[len(tail)-60:]
 	}
-	return map[string]interface{}{"scenario": w.name, "seed": w.seed, "step": w.step, "min": w.min, "usemapcnt": w.useMap,
+	return map[string]interface{}{"scenario": w.name, "seed": w.seed, "step": w.step, "min": w.min, "usemapcnt": w.useMap, "compressed_records": w.compr,
 		"detail": detail, "last_ops": tail}
 }
+
+// the search for a failing history stops at the first property failure or model/impl disagreement of a world; a
+// decoder-level residue alone (reported once) does not stop it: a history in which it shows as a wrong balance is wanted
+var nStop int
+var residueReported bool
 
 func (w *world) propFail(key, what string, detail interface{}) {
 	if !w.failed {
 		r.PropFail(key, what, w.replayDoc(detail))
+		nStop++
 	}
 	w.failed = true
 }
 func (w *world) tieFail(key, what string, detail interface{}) {
 	if !w.failed {
 		r.TieFail(key, what, w.replayDoc(detail))
+		nStop++
 	}
 	w.failed = true
 }
 
 func newWorld(name string, seed uint64, min uint64, useMap uint32) *world {
-	w := &world{name: name, seed: seed, rng: vlib.NewRng(seed), min: min, useMap: useMap, stopAt: -1}
-	k, err := chainkit.New(chainkit.Opts{Testnet: true}, w.rng.Fork())
+	return newWorldOpt(name, seed, min, useMap, false)
+}
+
+func newWorldOpt(name string, seed uint64, min uint64, useMap uint32, compr bool) *world {
+	w := &world{name: name, seed: seed, rng: vlib.NewRng(seed), min: min, useMap: useMap, stopAt: -1, compr: compr}
+	k, err := chainkit.New(chainkit.Opts{Testnet: true, ChainOpts: &chain.NewChanOpts{CompressUTXO: compr}}, w.rng.Fork())
 	if err != nil {
 		fmt.Fprintln(os.Stderr, "chainkit:", err)
 		os.Exit(3)
@@ -424,17 +439,8 @@ func (w *world) setOn(on bool, min uint64, useMap uint32) {
 		return
 	}
 	if on {
-		w.min, w.useMap = min, useMap
-		common.CFG.AllBalances.MinValue = min
-		common.CFG.AllBalances.UseMapCnt = useMap
-		was := common.Get(&common.WalletON)
-		wallet.LoadBalancesFromUtxo()
-		if !was {
-			r.Hit(fmt.Sprintf("enable:populated=%v", len(w.cur) > 0))
-		}
-		w.on = true
-		w.ask(fmt.Sprintf("enable %d %d", min, useMap))
-		w.logf("enable min=%d usemap=%d", min, useMap)
+		w.enable(min, useMap, w.rng.Chance(1, 3)) // byte-level path (load.go), sometimes after an aborted attempt
+		return
 	} else {
 		wallet.Disable()
 		w.on = false
@@ -1166,12 +1172,15 @@ func (w *world) opToggle() {
 		um = mapChoices[w.rng.Intn(len(mapChoices))]
 	}
 	w.setOn(true, mn, um)
+	if w.rng.Chance(1, 3) {
+		w.diskRoundTrip()
+	}
 }
 
 // a random history: maturity phase (coinbases paying to the pool), then a mix of operations
 func runRandom(name string, seed uint64, nops int, stopAt int) *world {
 	g := vlib.NewRng(seed ^ 0xc17)
-	w := newWorld(name, seed, minChoices[g.Intn(len(minChoices))], mapChoices[g.Intn(len(mapChoices))])
+	w := newWorldOpt(name, seed, minChoices[g.Intn(len(minChoices))], mapChoices[g.Intn(len(mapChoices))], seed&(1<<20) != 0)
 	w.stopAt = stopAt
 	defer w.close()
 	for idx := 0; idx < 5; idx++ {
@@ -1533,6 +1542,12 @@ func runNamed(name string, seed uint64, stopAt int) {
 		var idx int
 		fmt.Sscanf(name, "zero:usemap=%d,type=%d", &um, &idx)
 		runZero(name, seed, um, idx, stopAt)
+	case strings.HasPrefix(name, "static:"):
+		var mn uint64
+		var um uint32
+		var c int
+		fmt.Sscanf(name, "static:min=%d,usemap=%d,compr=%d", &mn, &um, &c)
+		runStatic(name, seed, mn, um, c == 1, stopAt)
 	case strings.HasPrefix(name, "random:"):
 		var nops int
 		fmt.Sscanf(name, "random:ops=%d", &nops)
@@ -1603,7 +1618,8 @@ func main() {
 		"scripts of the generated blocks are not executed (blocks are marked trusted after the full CheckBlock, like the client's -trust flag): the property is about the index, not about script validity",
 		"addresses = the five forms the index supports (P2PKH, P2SH, P2WPKH, P2WSH, P2TR); other witness versions have an address but no index by design",
 		"no two addresses in play collide under SipHash-2-4(0,0) and no two live transactions share their first 8 txid bytes (hypotheses hinj / Admissible of theorem balances_eq_projection; 64-bit collisions are not generated)",
-		"the index's disk cache (wallet/disk.go SaveBalances/LoadBalances) and the abort path of LoadBalancesFromUtxo are outside the model",
+		"the index's disk cache (wallet/disk.go): encoding modelled (Model.BalancesDisk) and compared with the files SaveBalances writes; folder naming and LAST_SAVED_FNAME logic are exercised on the real code only",
+		"the scan order of Unspent.HashMap during LoadBalancesFromUtxo is observed through FetchingBalanceTick and the address of utxo's static record; P2PK scripts (compressed key forms 2..5) are not generated here (C10 covers them)",
 		"UTXO change steps fed to the model are derived from snapshots of UnspentDB.HashMap taken at the vhook points after every block connection / disconnection",
 	}
 	if r.Replay != "" {
@@ -1618,6 +1634,9 @@ func main() {
 		return
 	}
 	checkSip()
+	if os.Getenv("C17_ONLY") != "random" {
+		runStaticUnit()
+	}
 	// corpus first
 	type cs struct {
 		mn  uint64
@@ -1637,9 +1656,8 @@ func main() {
 	if os.Getenv("C17_ONLY") == "random" { // self-test aid: the random stream alone
 		corpus = nil
 	}
-	base := r.Violations() // a model/impl disagreement of the unit comparisons does not stop the search for a failing history
 	for i, c := range corpus {
-		if r.Violations() > base {
+		if nStop > 0 {
 			break
 		}
 		runNamed(fmt.Sprintf("corpus:min=%d,usemap=%d,type=%d", c.mn, c.um, c.idx), uint64(1000+i), -1)
@@ -1658,13 +1676,37 @@ func main() {
 		zero = nil
 	}
 	for i, c := range zero {
-		if r.Violations() > base {
+		if nStop > 0 {
 			break
 		}
 		runNamed(fmt.Sprintf("zero:usemap=%d,type=%d", c.um, c.idx), uint64(2000+i), -1)
 	}
+	// the index built from a populated set of partially spent multi-output transactions, plain and compressed records,
+	// with aborted attempts and disk reloads
+	type ss struct {
+		mn uint64
+		um uint32
+		c  int
+	}
+	stat := []ss{{1000, 3, 0}, {0, 5000, 1}, {546, 1, 1}, {1000, 4, 0}}
+	if r.Thorough() {
+		for _, mn := range []uint64{0, 1000} {
+			for _, um := range []uint32{0, 2, 3, 6, 5000} {
+				stat = append(stat, ss{mn, um, 0}, ss{mn, um, 1})
+			}
+		}
+	}
+	if os.Getenv("C17_ONLY") == "random" {
+		stat = nil
+	}
+	for i, c := range stat {
+		if nStop > 0 {
+			break
+		}
+		runNamed(fmt.Sprintf("static:min=%d,usemap=%d,compr=%d", c.mn, c.um, c.c), r.Seed*1000+uint64(3000+i), -1)
+	}
 	n := r.N(10, 120)
-	for i := 0; i < n && r.Violations() == base; i++ {
+	for i := 0; i < n && nStop == 0; i++ {
 		seed := r.Rng.U64()
 		nops := 40 + int(seed%40)
 		runNamed(fmt.Sprintf("random:ops=%d", nops), seed, -1)
